@@ -243,9 +243,26 @@ type LongIdleCase struct {
 	Modes  []LongIdleMode `json:"modes"`
 }
 
+// DeadlineCase: the application side sets a deadline on the accepted
+// connection, uses it, clears it with the zero time, and uses the connection
+// again after the old deadline has passed.
+type DeadlineMode struct {
+	Mode     string   `json:"mode"`
+	Steps    []string `json:"steps"`    // what the application did and how it went
+	Got      int      `json:"got"`      // bytes the client received
+	Want     int      `json:"want"`
+	PrefixOK bool     `json:"prefix_ok"`
+	SetupErr string   `json:"setup_err,omitempty"`
+}
+
+type DeadlineCase struct {
+	Modes []DeadlineMode `json:"modes"`
+}
+
 type Case struct {
 	I      int        `json:"i"`
 	Stream string     `json:"stream"`
+	Deadline *DeadlineCase `json:"deadline,omitempty"`
 	LongIdle *LongIdleCase `json:"longidle,omitempty"`
 	Age    *AgeCase   `json:"age,omitempty"`
 	Idle   *IdleCase  `json:"idle,omitempty"`
@@ -1288,6 +1305,107 @@ func runIdle(r *hx.Rng, mode string, levels []int) *IdleCase {
 	return res
 }
 
+// ---- deadline stream ----
+
+func runDeadlineMode(mode string) DeadlineMode {
+	res := DeadlineMode{Mode: mode, Steps: []string{}, Want: 4 * 1024}
+	const n = 1024
+	lookup := func(domain string) (*sniproxy.Dest, error) {
+		if domain == "deadline.example" {
+			return &sniproxy.Dest{Name: "/ep0"}, nil
+		}
+		return nil, fmt.Errorf("bad domain %q", domain)
+	}
+	var mu sync.Mutex
+	step := func(what string, err error) {
+		mu.Lock()
+		defer mu.Unlock()
+		if err != nil {
+			what += ": " + err.Error()
+		} else {
+			what += ": ok"
+		}
+		res.Steps = append(res.Steps, what)
+	}
+	appDone := make(chan struct{})
+	handler := func(ep string, conn net.Conn) {
+		defer close(appDone)
+		defer conn.Close()
+		br := bufio.NewReader(conn)
+		if _, err := e2e.ReadRecord(br); err != nil {
+			return
+		}
+		data := tagged('A', 3, 4*n)
+		buf := make([]byte, n)
+		// write deadline: set, write, clear, wait past it, write
+		conn.SetWriteDeadline(time.Now().Add(300 * time.Millisecond))
+		_, err := conn.Write(data[:n])
+		step("write under a 300 ms write deadline", err)
+		conn.SetWriteDeadline(time.Time{})
+		// read deadline: set, read, clear; the next bytes come after the old deadline
+		conn.SetReadDeadline(time.Now().Add(300 * time.Millisecond))
+		_, err = io.ReadFull(br, buf)
+		step("read under a 300 ms read deadline", err)
+		conn.SetReadDeadline(time.Time{})
+		time.Sleep(500 * time.Millisecond)
+		_, err = conn.Write(data[n : 2*n])
+		step("write 500 ms after the write deadline was cleared", err)
+		_, err = io.ReadFull(br, buf)
+		step("read after the read deadline was cleared and has passed", err)
+		// SetDeadline: both at once
+		conn.SetDeadline(time.Now().Add(200 * time.Millisecond))
+		_, err = conn.Write(data[2*n : 3*n])
+		step("write under a 200 ms deadline", err)
+		conn.SetDeadline(time.Time{})
+		time.Sleep(300 * time.Millisecond)
+		_, err = conn.Write(data[3*n:])
+		step("write 300 ms after the deadline was cleared", err)
+		io.Copy(io.Discard, br)
+	}
+	w, err := e2e.NewWorld(mode, lookup, []string{"/ep0"}, handler)
+	if err != nil {
+		res.SetupErr = err.Error()
+		return res
+	}
+	defer w.Close()
+	conn, err := w.DialFront()
+	if err != nil {
+		res.SetupErr = "front dial: " + err.Error()
+		return res
+	}
+	defer conn.Close()
+	conn.SetDeadline(time.Now().Add(10 * time.Second))
+	conn.Write(append(append([]byte{}, e2e.SynthHello("deadline.example", true, 0)...), tagged('C', 3, n)...))
+	go func() {
+		time.Sleep(650 * time.Millisecond) // after the application's old read deadline
+		conn.Write(tagged('C', 4, n))
+	}()
+	got := make([]byte, 4*n)
+	k, _ := io.ReadFull(conn, got)
+	res.Got = k
+	res.PrefixOK = bytes.Equal(got[:k], tagged('A', 3, 4*n)[:k])
+	conn.Close()
+	select {
+	case <-appDone:
+	case <-time.After(5 * time.Second):
+	}
+	return res
+}
+
+func runDeadline() *DeadlineCase {
+	res := &DeadlineCase{Modes: make([]DeadlineMode, len(e2e.Modes))}
+	var wg sync.WaitGroup
+	for i, mode := range e2e.Modes {
+		wg.Add(1)
+		go func(i int, mode string) {
+			defer wg.Done()
+			res.Modes[i] = runDeadlineMode(mode)
+		}(i, mode)
+	}
+	wg.Wait()
+	return res
+}
+
 // ---- longidle stream ----
 
 var idleMs = 0
@@ -1809,6 +1927,7 @@ func plan(seed uint64, n, e2eN int, big, huge bool) []spec {
 	for i := 0; i < 10; i++ {
 		ss = append(ss, spec{stream: "stage", seed: r.U64(), a: 2})
 	}
+	ss = append(ss, spec{stream: "deadline", seed: r.U64()}) // deadlines set, used, cleared, outlived
 	if idleMs > 0 { // a new bound in time appeared in the source: idle past it
 		ss = append(ss, spec{stream: "longidle", seed: r.U64(), a: idleMs})
 	}
@@ -1927,6 +2046,8 @@ func runSpec(i int, s spec) (c Case) {
 		c.Stage = runStage(r, s.a)
 	case "conc":
 		c.Conc = runConc(r, s.mode, 8, s.a, s.b)
+	case "deadline":
+		c.Deadline = runDeadline()
 	case "longidle":
 		c.LongIdle = runLongIdle(s.a)
 	case "age":
